@@ -4,6 +4,7 @@ package c05
 
 import (
 	"bufio"
+	"context"
 	"crypto/tls"
 	"crypto/x509"
 	"fmt"
@@ -43,6 +44,13 @@ type Case struct {
 	// martianurl.Modifier does): the tunnel goes to another upstream, but the
 	// certificate presented to the client is still for the host the client named.
 	RewriteConnect bool `json:"rewrite_connect,omitempty"`
+	// Transport: which round tripper the embedding program hands the proxy:
+	// "" = a plain *http.Transport with a TLS client configuration; "dialtls" =
+	// one with its own DialTLS hook (the caller does the upstream handshake
+	// itself, e.g. to pin certificates); "dialcontext" = one with DialContext set.
+	// DialFirst: SetDial is called before SetRoundTripper instead of after it.
+	Transport string `json:"transport,omitempty"`
+	DialFirst bool   `json:"dial_first,omitempty"`
 }
 
 const authority = "secure.test:443"
@@ -173,8 +181,40 @@ func runOnce(c Case, T time.Duration) (v kit.Verdict) {
 	pb := &probe{rewrite: c.RewriteConnect}
 	p := martian.NewProxy()
 	p.SetTimeout(60 * time.Second)
-	netkit.UpstreamTLS(p)
-	p.SetDial(dialer.Dial)
+	if c.DialFirst {
+		p.SetDial(dialer.Dial)
+	}
+	switch c.Transport {
+	case "dialtls":
+		p.SetRoundTripper(&http.Transport{
+			TLSHandshakeTimeout: 10 * time.Second, DisableCompression: true,
+			DialTLS: func(network, addr string) (net.Conn, error) {
+				raw, err := dialer.Dial(network, addr)
+				if err != nil {
+					return nil, err
+				}
+				host, _, _ := net.SplitHostPort(addr)
+				tc := tls.Client(raw, &tls.Config{RootCAs: netkit.OriginPool(), ServerName: host})
+				tc.SetDeadline(time.Now().Add(10 * time.Second))
+				if err := tc.Handshake(); err != nil {
+					raw.Close()
+					return nil, err
+				}
+				tc.SetDeadline(time.Time{})
+				return tc, nil
+			},
+		})
+	case "dialcontext":
+		p.SetRoundTripper(&http.Transport{
+			TLSClientConfig: &tls.Config{RootCAs: netkit.OriginPool()}, TLSHandshakeTimeout: 10 * time.Second, DisableCompression: true,
+			DialContext: func(_ context.Context, network, addr string) (net.Conn, error) { return dialer.Dial(network, addr) },
+		})
+	default:
+		netkit.UpstreamTLS(p)
+	}
+	if !c.DialFirst {
+		p.SetDial(dialer.Dial)
+	}
 	p.SetMITM(mc)
 	p.SetRequestModifier(pb)
 	var wrap func(net.Listener) net.Listener
@@ -457,6 +497,8 @@ func genCase(t *rapid.T) Case {
 	if c.Listener != "transparent" && !c.PlainInside && rapid.IntRange(0, 4).Draw(t, "rewrite") == 0 {
 		c.RewriteConnect = true
 	}
+	c.Transport = rapid.SampledFrom([]string{"", "", "", "dialtls", "dialtls", "dialcontext"}).Draw(t, "transport")
+	c.DialFirst = rapid.IntRange(0, 3).Draw(t, "dial_first") == 0
 	n := rapid.IntRange(2, 5).Draw(t, "n")
 	if rapid.IntRange(0, 9).Draw(t, "single") == 0 {
 		n = 1
@@ -511,6 +553,12 @@ func classes(c Case) []string {
 	}
 	if c.RewriteConnect {
 		out = append(out, "connect-rewritten-by-modifier")
+	}
+	if c.Transport != "" {
+		out = append(out, "caller-transport-"+c.Transport)
+	}
+	if c.DialFirst {
+		out = append(out, "setdial-before-setroundtripper")
 	}
 	set := map[string]bool{}
 	for _, in := range c.Inner {
